@@ -169,6 +169,14 @@ func (r *Report) Violation(sig string, witness interface{}) bool {
 	return true
 }
 
+// SawSignature reports whether a violation or known finding with this
+// signature was raised in this run.
+func (r *Report) SawSignature(sig string) bool {
+	r.mu.Lock()
+	defer r.mu.Unlock()
+	return r.seenSig[sig] > 0 || r.known[sig] > 0
+}
+
 func (r *Report) Violations() int {
 	r.mu.Lock()
 	defer r.mu.Unlock()
